@@ -127,6 +127,12 @@ def _run(mod, prop, tier, seed, replay, jobs, tmp, t0):
         inconclusive.append(extra_cov.pop('_inconclusive'))
     if agg['evaluations'] == 0:
         inconclusive.append('no case was evaluated')
+    # the LibYAML glue was built for this run: every worker that asked for it must have been able to import it
+    if any('glue rebuilt' in n or 'stock lib/yaml' in n for n in notes):
+        nw = sum(1 for r in results if r.done and r.spec.get('cext'))
+        nc = sum((r.done['stats'].get('worker_have_c', 0)) for r in results if r.done and r.spec.get('cext'))
+        if nw and nc < nw:
+            inconclusive.append('%d of %d workers could not import the LibYAML extension although it was built: the C side was not exercised' % (nw - nc, nw))
     # classification against the known-findings file (open entries only)
     unknown, known_hits = [], {}
     for v in agg['viols']:
